@@ -121,9 +121,12 @@ def openLoop (cfg : Cfg) : List Nat → OpenAcc → Res OpenAcc × OpenAcc
               (.ok a2, a2)
             else
               let sm3 := { sm2 with closed := sm2.closed ++ [⟨oc.offsets, sm2.st⟩] }
-              openLoop cfg rest { a1 with sm := sm3, prevEnd := some (lastOff oc.offsets),
-                                          lastLogId := sm2.st.last,
-                                          lastTruncated := oc.truncatedTo.isSome }
+              -- every chunk file that stays is synced once (the previous owner may have stopped
+              -- after a failed sync)
+              let a1s : OpenAcc := { a1 with fs := a1.fs.sync id, evs := a1.evs ++ [Ev.sync "o" id true] }
+              openLoop cfg rest { a1s with sm := sm3, prevEnd := some (lastOff oc.offsets),
+                                           lastLogId := sm2.st.last,
+                                           lastTruncated := oc.truncatedTo.isSome }
 
 /-- Everything `open` does after taking the lock. Returns the result, the new
 file system, the events, and on success the store and its worker. -/
